@@ -174,7 +174,18 @@ def run_equiv(case, rec):
     if len(atoms) >= 2 and meta["cell_mode"] != "zero_vector_periodic":
         try:
             seed = int(rng.integers(100))
-            c1 = matid.SBC().get_clusters(atoms, radii=preset, seed=seed, bond_threshold=thr if thr < 1 else 0.65)
+            sbc = matid.SBC()
+            if rng.random() < 0.4:
+                # history: the same SBC object clustered this structure before with OTHER radii (scaled array or
+                # another preset); the preset run below must not inherit anything from it
+                other = explicit * float(rng.uniform(0.4, 1.8)) if rng.random() < 0.7 else "covalent" if preset != "covalent" else explicit * 1.5
+                with core.suspend():
+                    try:
+                        sbc.get_clusters(atoms, radii=other, seed=seed, bond_threshold=thr if thr < 1 else 0.65)
+                    except Exception:
+                        pass
+                rec.note("sbc_instance_reused_with_other_radii")
+            c1 = sbc.get_clusters(atoms, radii=preset, seed=seed, bond_threshold=thr if thr < 1 else 0.65)
             c2 = matid.SBC().get_clusters(atoms, radii=explicit, seed=seed, bond_threshold=thr if thr < 1 else 0.65)
             if clusters_signature(c1) != clusters_signature(c2):
                 ok = False
